@@ -28,7 +28,10 @@ def to_ttp(prob, plan):
     em = prob.environment.expression_manager
     steps = []
     for s, an, args, d in plan:
-        ai = ActionInstance(prob.action(an), tuple(em.ObjectExp(prob.object(a)) for a in args))
+        ai = ActionInstance(
+            prob.action(an),
+            tuple(em.ObjectExp(prob.object(a)) if isinstance(a, str) else em.Int(a) for a in args),
+        )
         steps.append((Fraction(s), ai, None if d is None else Fraction(d)))
     return TimeTriggeredPlan(steps, prob.environment), steps
 
